@@ -21,6 +21,13 @@
       the bound `ctr + 1 + (layer length) < 2^63` (theorem `C11_scan_below_bound`).
     * `Ev`, `Status`, `statusOf`, `Status.expected`: the property's own definition, from the HISTORY of
       notifier calls, of "a host the policy knows and that is up" (independent of the policy lists).
+    * (third round) the token-aware policy's replica tables are refreshed as the code does it: `AddHost` /
+      `RemoveHost` that changed `t.hosts` rebuild the token ring and recompute the table of the SESSION keyspace
+      only (`updateReplicas(meta, getKeyspaceName())`, strategy from the keyspace metadata: SimpleStrategy rf /
+      no usable strategy / unknown keyspace); `KeyspaceChanged(ks)` recomputes the table of `ks`; tables of
+      other keyspaces stay as they are. `Iter` / `TA.openIter` / `TA.nextIter`: the iterator returned by `Pick`
+      call by call (several iterators alive at once; the fallback policy's `Pick` happens when an iterator
+      leaves its replica phases). `Cow.*`: the atomic steps of `cowHostList.add/remove` run by several threads.
   Core Lean only (compiled into the native driver).
 -/
 namespace Policies
@@ -222,6 +229,22 @@ def lookupTok {β : Type} (tab : List (Nat × β)) (t : Nat) : Option β :=
   | some e => some e.2
   | none => tab.head?.map (·.2)
 
+/-- `simpleStrategy.replicaMap`, inner loop `for j := 0; j < len(tokens) && len(replicas) < rf; j++`
+over `tokens[(i+j)%len]`: the first `rf` distinct hosts -/
+def simpleWalk (rf : Nat) : List Host → List Host → List Host
+  | acc, [] => acc
+  | acc, h :: r =>
+    if acc.length < rf then (if acc.contains h then simpleWalk rf acc r else simpleWalk rf (acc ++ [h]) r)
+    else acc
+
+/-- walk order from ring index `i`: `tokens[(i+j) % len]`, `j = 0 … len-1` -/
+def ringRot {α : Type} (l : List α) (i : Nat) : List α := l.drop i ++ l.take i
+
+/-- `simpleStrategy.replicaMap(tokenRing)`: one entry per ring token -/
+def simpleMap (rf : Nat) (ring : List (Nat × Host)) : List (Nat × List Host) :=
+  (List.range ring.length).map (fun i =>
+    ((ring.getD i default).1, simpleWalk rf [] ((ringRot ring i).map (·.2))))
+
 structure TA where
   pol : Pol                 -- the fallback policy
   shuffle : Bool
@@ -229,14 +252,49 @@ structure TA where
   partSet : Bool            -- SetPartitioner was called (token ring exists)
   hosts : List Host         -- t.hosts
   replicas : List (Nat × List (Nat × List Host))   -- keyspace ↦ token-sorted replica table
+  sessKs : Option Nat := none     -- `getKeyspaceName()` (none: a keyspace no query names)
+  /-- what `getKeyspaceMetadata` + `getStrategy` give for a keyspace: absent = unknown keyspace (error),
+  `none` = no usable strategy (LocalStrategy, unsupported class), `some rf` = SimpleStrategy -/
+  ksMeta : List (Nat × Option Nat) := []
 deriving Repr
 
-def TA.new (p : Pol) (shuffle nonlocal partSet : Bool) : TA := ⟨p, shuffle, nonlocal, partSet, [], []⟩
+/-- a new policy; `sess` = the session keyspace (`Init`: `getKeyspaceName`), none = a keyspace no query names -/
+def TA.new (p : Pol) (shuffle nonlocal partSet : Bool) (sess : Option Nat := none) : TA :=
+  { pol := p, shuffle := shuffle, nonlocal := nonlocal, partSet := partSet, hosts := [], replicas := [], sessKs := sess }
 
+/-- `updateReplicas(meta, ks)`: the table of `ks` is recomputed from the CURRENT token ring if the keyspace
+has a usable strategy (and a ring exists), dropped otherwise; the tables of the other keyspaces are kept. -/
+def TA.updateReplicas (t : TA) (ks : Nat) : TA :=
+  let rest := t.replicas.filter (fun e => e.1 != ks)
+  match (t.ksMeta.find? (fun e => e.1 == ks)).bind (·.2) with
+  | some rf =>
+    if t.partSet then { t with replicas := (ks, sortByTok (simpleMap rf (ringOf t.hosts))) :: rest }
+    else { t with replicas := rest }
+  | none => { t with replicas := rest }
+
+/-- `resetTokenRing` + `updateReplicas(meta, t.getKeyspaceName())` (the ring itself is `ringOf t.hosts`) -/
+def TA.refresh (t : TA) : TA :=
+  match t.sessKs with
+  | some ks => t.updateReplicas ks
+  | none => t
+
+/-- `KeyspaceChanged(update)` -/
+def TA.keyspaceChanged (t : TA) (ks : Nat) : TA := t.updateReplicas ks
+
+/-- the harness' keyspace metadata: `v = none` forgets the keyspace -/
+def TA.setMeta (t : TA) (ks : Nat) (v : Option (Option Nat)) : TA :=
+  { t with ksMeta := (match v with | some m => [(ks, m)] | none => []) ++ t.ksMeta.filter (fun e => e.1 != ks) }
+
+/-- `AddHost`: `if t.hosts.add(host) { resetTokenRing; updateReplicas(session keyspace) }; fallback.AddHost` -/
 def TA.add (t : TA) (h : Host) : TA :=
-  { t with hosts := (cowAdd t.hosts h).1, pol := t.pol.add h }
+  let r := cowAdd t.hosts h
+  let t1 : TA := { t with hosts := r.1 }
+  { (if r.2 then t1.refresh else t1) with pol := t.pol.add h }
+/-- `RemoveHost`: `if t.hosts.remove(addr) { resetTokenRing; updateReplicas(session keyspace) }; fallback.RemoveHost` -/
 def TA.remove (t : TA) (h : Host) : TA :=
-  { t with hosts := (cowRemove t.hosts h.addr).1, pol := t.pol.remove h }
+  let r := cowRemove t.hosts h.addr
+  let t1 : TA := { t with hosts := r.1 }
+  { (if r.2 then t1.refresh else t1) with pol := t.pol.remove h }
 def TA.hostUp (t : TA) (h : Host) : TA := { t with pol := t.pol.add h }
 def TA.hostDown (t : TA) (h : Host) : TA := { t with pol := t.pol.remove h }
 
@@ -322,6 +380,136 @@ def TA.pickSeq (t : TA) (up : Nat → Bool) (σ : List Host → List Host) (rk :
     | .hosts l fromTable =>
       .seq (taSeq t.pol.tier t.pol.maxTier up t.nonlocal (if fromTable && t.shuffle then σ l else l) (t.pol.pickSeq up))
 
+/-! ### the iterator returned by `Pick`, call by call (several iterators alive at once)
+
+`Pick` of the token-aware policy fixes the replica list (its own shuffled copy: `shuffleHosts` copies) and
+hence — the up/down state being fixed while iterators are alive — the hosts of the replica phases; the
+fallback policy's `Pick` (snapshot of its lists, counter increment) happens at the first call that gets past
+the replica phases. A query handed to the fallback policy as it is calls the fallback's `Pick` at once. -/
+
+structure Iter where
+  given : List Host            -- hosts offered so far
+  head : List Host             -- hosts of the replica phases not yet offered
+  used : List Host             -- the `used` set when the fallback iterator is created (= the whole head)
+  fb : Option Scan             -- the fallback iterator once created: what it will still offer (minus `used`), panic at the end
+deriving Repr
+
+/-- `Pick(qry)` -/
+def TA.openIter (t : TA) (up : Nat → Bool) (σ : List Host → List Host) (rk : Option (Nat × Nat)) : TA × Iter :=
+  let plain : TA × Iter := ({ t with pol := t.pol.bump }, ⟨[], [], [], some (t.pol.pickScan up)⟩)
+  match rk with
+  | none => plain
+  | some (ks, tok) =>
+    match t.replicasFor ks tok with
+    | .noRing => plain
+    | .emptyRing => plain
+    | .hosts l fromTable =>
+      let hd := taHead t.pol.tier t.pol.maxTier up t.nonlocal (if fromTable && t.shuffle then σ l else l)
+      (t, ⟨[], hd, hd, none⟩)
+
+/-- result of one call of the iterator -/
+inductive Next
+  | host (h : Host)
+  | done            -- nil: the iterator is exhausted (and stays so)
+  | panic
+deriving Repr, DecidableEq
+
+/-- one call of the iterator in policy state `t` -/
+def TA.nextIter (t : TA) (up : Nat → Bool) (it : Iter) : TA × Iter × Next :=
+  match it.head with
+  | x :: r => (t, { it with head := r, given := it.given ++ [x] }, .host x)
+  | [] =>
+    let st : TA × Scan := match it.fb with
+      | some sc => (t, sc)
+      | none => ({ t with pol := t.pol.bump },
+                 ⟨minusUsed it.used (t.pol.pickScan up).offered, (t.pol.pickScan up).crashed⟩)
+    match st.2.offered with
+    | x :: r => (st.1, { it with fb := some ⟨r, st.2.crashed⟩, given := it.given ++ [x] }, .host x)
+    | [] => (st.1, { it with fb := some st.2 }, if st.2.crashed then .panic else .done)
+
+/-- `n` calls (stopping at nil / a panic): new states, hosts offered by these calls, how it ended (`none` = still running) -/
+def TA.nextN (t : TA) (up : Nat → Bool) (it : Iter) : Nat → TA × Iter × List Host × Option Next
+  | 0 => (t, it, [], none)
+  | n + 1 =>
+    match t.nextIter up it with
+    | (t1, it1, .host h) =>
+      let r := TA.nextN t1 up it1 n
+      (r.1, r.2.1, h :: r.2.2.1, r.2.2.2)
+    | (t1, it1, e) => (t1, it1, [], some e)
+
+/-! ### rotation of the starting host per tier (fourth round)
+
+Property text: "for the round-robin based policies successive queries rotate the starting host within a tier so
+load is spread". Observable: drain the iterators of `m` successive `Pick`s (nothing in between) and look, per
+tier, at the FIRST host each of them offers from that tier (after the replica phases, for a token-aware policy).
+`tierBalanced` is the SPECIFICATION of "spread" for one tier with `n` listed hosts of which `d` cannot be offered
+(state down but still listed, or already offered by the replica phases): every host that can be offered is the
+first one of its tier at least ⌊m/n⌋ times and at most ⌈m/n⌉·(1+d) times — with d = 0 the same number of times ±1. -/
+
+/-- the first host of tier `t` in a drained sequence -/
+def tierFirst (tier : Host → Nat) (t : Nat) (seq : List Host) : Option Host :=
+  (seq.filter (fun h => tier h == t)).head?
+
+/-- how many of the drained sequences `seqs` offer `h` as the first host of tier `t` -/
+def firstHits (tier : Host → Nat) (t : Nat) (seqs : List (List Host)) (h : Host) : Nat :=
+  seqs.countP (fun s => tierFirst tier t s == some h)
+
+/-- ⌈m/n⌉ written with `/` and `%` -/
+def ceilDiv (m n : Nat) : Nat := m / n + (if m % n = 0 then 0 else 1)
+
+/-- SPECIFICATION of "load is spread" for one tier: `l` the listed hosts, `cand` = can be offered, `m` picks -/
+def tierBalanced (cand : Host → Bool) (l : List Host) (m : Nat) (hits : Host → Nat) : Bool :=
+  l.all (fun h => !cand h ||
+    (decide (m / l.length ≤ hits h) &&
+     decide (hits h ≤ ceilDiv m l.length * (1 + l.countP (fun x => !cand x)))))
+
+/-- the first tier (index into `layers`) that is not balanced over the drained sequences `seqs`; `none` = balanced -/
+def rotVerdict (tier : Host → Nat) (cand : Host → Bool) (layers : List (List Host)) (seqs : List (List Host)) : Option Nat :=
+  (List.range layers.length).find? (fun t =>
+    !tierBalanced cand (layers.getD t []) seqs.length (firstHits tier t seqs))
+
+/-- the hosts of the replica phases of the iterator returned by `Pick` (none for a query handed to the fallback as it is) -/
+def TA.headOf (t : TA) (up : Nat → Bool) (σ : List Host → List Host) (rk : Option (Nat × Nat)) : List Host :=
+  match rk with
+  | none => []
+  | some (ks, tok) =>
+    match t.replicasFor ks tok with
+    | .hosts l fromTable => taHead t.pol.tier t.pol.maxTier up t.nonlocal (if fromTable && t.shuffle then σ l else l)
+    | _ => []
+
+/-- what the drained iterator offers AFTER its replica phases (the fallback iterator minus the hosts used) -/
+def TA.fbPart (t : TA) (up : Nat → Bool) (σ : List Host → List Host) (rk : Option (Nat × Nat)) : Scan :=
+  match rk with
+  | none => t.pol.pickScan up
+  | some (ks, tok) =>
+    match t.replicasFor ks tok with
+    | .hosts l fromTable =>
+      let hd := taHead t.pol.tier t.pol.maxTier up t.nonlocal (if fromTable && t.shuffle then σ l else l)
+      ⟨minusUsed hd (t.pol.pickScan up).offered, (t.pol.pickScan up).crashed⟩
+    | _ => t.pol.pickScan up
+
+/-- the policy after `Pick` + full drain: the fallback policy's `Pick` has happened (the iterator asks the
+fallback iterator before it returns nil), nothing else changes -/
+def TA.drained (t : TA) : TA := { t with pol := t.pol.bump }
+
+/-- `m` successive `Pick`s, each fully drained, nothing in between; pick number `i + j` shuffles with `σs (i + j)`:
+per pick the hosts of the replica phases and what came after them -/
+def TA.rotateRun (t : TA) (up : Nat → Bool) (σs : Nat → List Host → List Host) (rk : Option (Nat × Nat)) :
+    Nat → Nat → List (List Host × Scan)
+  | _, 0 => []
+  | i, m + 1 => (t.headOf up (σs i) rk, t.fbPart up (σs i) rk) :: TA.rotateRun t.drained up σs rk (i + 1) m
+
+/-- the verdict of the op `rotate`: the first tier whose first-host histogram over the run is not balanced;
+a host can be offered after the replica phases if it is up and the replica phases did not offer it -/
+def TA.rotateVerdict (t : TA) (up : Nat → Bool) (σs : Nat → List Host → List Host) (rk : Option (Nat × Nat)) (m : Nat) : Option Nat :=
+  rotVerdict t.pol.tier (fun h => up h.id && !(t.headOf up (σs 0) rk).contains h) [t.pol.l0, t.pol.l1, t.pol.l2]
+    ((TA.rotateRun t up σs rk 0 m).map (·.2.offered))
+
+/-- the SEEDED variant C11-8 (regression, `Proofs/C11.lean`): the shift is reduced modulo the size of the first
+layer before it is used for every layer -/
+def rrSeqReduced (up : Nat → Bool) (shift : Nat) (layers : List (List Host)) : List Host :=
+  rrSeq up (match layers.head? with | some l => if l.length = 0 then shift else shift % l.length | none => shift) layers
+
 /-! ### the property's definition of "known and up", from the history of notifier calls
 
 `HostStateNotifier` has four calls. In the property's words: a host that was added (`AddHost`) and not
@@ -354,5 +542,63 @@ def Status.expected (s : Status) (isUp : Bool) : Bool := s.known && s.last != so
 
 /-- excluded condition 1 (finding KF-C11-3): `HostUp` for a host that is not known (never added, or removed) -/
 def Status.ghost (s : Status) : Bool := !s.known && s.last == some .hup
+
+/-! ### `cowHostList.add` / `remove` run by several threads (atomic steps as the code has them)
+
+Every call is `mu.Lock(); l := list.Load(); newL := f(l); list.Store(newL); mu.Unlock()` (add: `f = cowAdd · h`,
+remove: `f = cowRemove · ip`; a call that changes nothing skips the Store — the same as storing `l`).
+Generic in the shared value `σ` and the update functions. `locked = false` is the variant WITHOUT the mutex
+discipline around load and copy (load; copy; lock; store; unlock — the seeded change C11-5), for the counterexample. -/
+namespace Cow
+
+inductive Pc (σ : Type)
+  | idle                 -- before `mu.Lock()` (locked discipline) / before the Load (unlocked variant)
+  | locked               -- holds the mutex, before the Load
+  | loaded (snap : σ)    -- has its snapshot
+  | computed (new : σ)   -- has built the new list
+  | waiting (new : σ)    -- unlocked variant only: new list built, before `mu.Lock()`
+  | stored               -- has published, holds the mutex
+  | done
+
+structure Sys (σ : Type) where
+  shared : σ                 -- the atomic.Value
+  mu : Option Nat            -- the holder of the mutex
+  pcs : Nat → Pc σ           -- one program counter per thread (thread i runs `fs i`)
+
+/-- one atomic step of thread `i` of `n` (a step that is not enabled — the mutex is taken, the thread is done,
+no such thread — leaves the system as it is) -/
+def step {σ : Type} (locked : Bool) (n : Nat) (fs : Nat → σ → σ) (s : Sys σ) (i : Nat) : Sys σ :=
+  let set (v : Pc σ) : Nat → Pc σ := fun j => if j = i then v else s.pcs j
+  if n ≤ i then s else
+  match s.pcs i with
+  | .idle =>
+    if locked then (if s.mu.isNone then { s with mu := some i, pcs := set .locked } else s)
+    else { s with pcs := set (.loaded s.shared) }
+  | .locked => { s with pcs := set (.loaded s.shared) }
+  | .loaded snap =>
+    if locked then { s with pcs := set (.computed (fs i snap)) }
+    else { s with pcs := set (.waiting (fs i snap)) }
+  | .waiting new => if s.mu.isNone then { s with mu := some i, pcs := set (.computed new) } else s
+  | .computed new => { s with shared := new, pcs := set .stored }
+  | .stored => { s with mu := none, pcs := set .done }
+  | .done => s
+
+def init {σ : Type} (x : σ) : Sys σ := ⟨x, none, fun _ => .idle⟩
+
+/-- run a schedule (the thread chosen at every step) -/
+def run {σ : Type} (locked : Bool) (n : Nat) (fs : Nat → σ → σ) (s : Sys σ) (sched : List Nat) : Sys σ :=
+  sched.foldl (step locked n fs) s
+
+def Pc.isDone {σ : Type} : Pc σ → Bool
+  | .done => true
+  | _ => false
+
+/-- every call has returned -/
+def Sys.allDone {σ : Type} (s : Sys σ) (n : Nat) : Bool := (List.range n).all (fun i => (s.pcs i).isDone)
+
+/-- the calls applied one after the other in the given order -/
+def seq {σ : Type} (fs : Nat → σ → σ) (order : List Nat) (x : σ) : σ := order.foldl (fun acc i => fs i acc) x
+
+end Cow
 
 end Policies
